@@ -352,5 +352,10 @@ def predict (r : Fit α) (x : List α) : Option (List α) := do
       pure (invLink r.family e)
     | none => pure (invLink r.family res)
 
+/-- `score(x, y)`: `family.deviance(y, predict(x).unwrap())`. -/
+def score (r : Fit α) (x y : List α) : Option α := do
+  let pr ← predict r x
+  deviance r.family y pr
+
 end model
 end Cv.Glm
